@@ -3,7 +3,7 @@
    The model is Html/Model.v (all of /repo/html/lex.go and ToHash over the generated table); [run c n l] is a
    caller that calls Next n times whatever it returns; [cfg_ok c] says the two template delimiters contain no
    NUL byte (c = no_tmpl: NewLexer; the six predefined pairs satisfy it, cfg_ok_predefined). *)
-From Verif Require Import Common.Base Common.Lx Gen.Tables Html.Model Html.ListLemmas Html.Safety Html.Step Html.Spec Html.RawText Html.Proofs Html.Template Html.Wf Html.WfDoc Html.EndTag Html.TemplateMore Html.Script.
+From Verif Require Import Common.Base Common.Lx Gen.Tables Html.Model Html.ListLemmas Html.Safety Html.Step Html.Spec Html.RawText Html.Proofs Html.EndTag.
 
 (* C01 — no panic, no endless loop: n calls of Next succeed on every byte string, with or without template
    delimiters, whatever the caller does after an error. *)
@@ -65,17 +65,6 @@ Theorem html_attr_bracketing :
 Proof. exact html_attr_bracketing_proof. Qed.
 Print Assumptions html_attr_bracketing.
 
-(* C09 refuted — template regions inside comments, doctype, end tags, svg and math are not recognised. *)
-Theorem html_template_elsewhere_refuted :
-  region_unreported go_tmpl CommentT [60;33;45;45;32;123;123;120;125;125;32;45;45;62] 5 10 /\
-  region_split go_tmpl CommentT [60;33;45;45;32;123;123;32;34;45;45;62;34;32;125;125;32;45;45;62;97] 5 16 /\
-  region_split go_tmpl DoctypeT [60;33;100;111;99;116;121;112;101;32;123;123;34;62;34;125;125;62] 10 17 /\
-  region_unreported go_tmpl EndTagT [60;47;97;123;123;120;125;125;62] 3 8 /\
-  region_unreported go_tmpl SvgT [60;115;118;103;62;123;123;34;60;47;115;118;103;62;34;125;125;60;47;115;118;103;62] 5 17 /\
-  region_unreported go_tmpl MathT [60;109;97;116;104;62;123;123;120;125;125;60;47;109;97;116;104;62] 6 11.
-Proof. exact html_template_elsewhere_refuted_proof. Qed.
-Print Assumptions html_template_elsewhere_refuted.
-
 (* C09 — raw text: after the start tag of a raw-text element (rawtag l <> 0, tag closed) the content up to e is
    returned as ONE Text token and the raw-text mode is left; e is the end of input or the position of an end tag of
    that element (end_tag_at: "</" + a maximal run of letters that hashes to the element, case-insensitively,
@@ -97,162 +86,6 @@ Theorem html_rawtext_never_markup :
                    ~ end_tag_at (rawtag l) (d ++ [0]) p).
 Proof. exact html_rawtext_proof. Qed.
 Print Assumptions html_rawtext_never_markup.
-
-(* C09 — script, double escape (full, no template delimiters): the content of a script element is ONE Text token that
-   ends exactly where the rules designate.  Script.script_len reads the remaining input as script data: a
-   "</script" followed by whitespace, '/', '>' or the end of input ends the content; "<!--" opens a section
-   (Script.esc_end) that "-->" closes; inside it "<script" + tag end sets the double-escape flag, and "</script" + tag
-   end clears the flag if it is set and otherwise ends the content; other "<", "</" + letters are skipped; the end of
-   input ends the content.  (e = cursor: the content is empty.) *)
-Theorem html_script_double_escape :
-  forall d l ty tk l', html_inv d l -> intag l = false -> rawtag l = html_hash_Script ->
-    next no_tmpl l = Ok (ty, tk, l') ->
-    let e := lpos (lz l) + script_len (skipz (lpos (lz l)) d) in
-    lpos (lz l) <= e <= len d /\
-    (lpos (lz l) < e ->
-       ty = TextT /\ tk = Some (mkSl (lpos (lz l)) (e - lpos (lz l))) /\ ltext l' = tk /\
-       rawtag l' = 0 /\ intag l' = false /\ lpos (lz l') = e).
-Proof. exact html_script_end_proof. Qed.
-Print Assumptions html_script_double_escape.
-
-(* C09 — raw text, exact end (full, no template delimiters): for every raw-text element other than plaintext the content
-   is ONE Text token that ends exactly at cursor + Script.raw_len: the first "</name" + tag end (script: outside
-   "<!--" sections, as in html_script_double_escape), or the end of input. *)
-Theorem html_rawtext_end_exact :
-  forall d l ty tk l', html_inv d l -> intag l = false -> rawtag l <> 0 -> rawtag l <> html_hash_Plaintext ->
-    next no_tmpl l = Ok (ty, tk, l') ->
-    let e := lpos (lz l) + raw_len (rawtag l) (skipz (lpos (lz l)) d) in
-    lpos (lz l) <= e <= len d /\
-    (lpos (lz l) < e ->
-       ty = TextT /\ tk = Some (mkSl (lpos (lz l)) (e - lpos (lz l))) /\ ltext l' = tk /\
-       rawtag l' = 0 /\ intag l' = false /\ lpos (lz l') = e).
-Proof. exact html_raw_end_proof. Qed.
-Print Assumptions html_rawtext_end_exact.
-
-(* C09 — templates, text: a delimited region [p,q) that starts where the lexer is in text is returned as exactly
-   one Template token, HasTemplate() = true (is_region: q is the end of the first closing delimiter outside quoted
-   strings, or the end of input). *)
-Theorem html_template_atomic :
-  forall c d l p q, cfg_ok c -> html_inv d l -> intag l = false -> rawtag l = 0 ->
-    p = lpos (lz l) -> is_region c d p q ->
-    exists l', next c l = Ok (TemplateT, Some (mkSl p (q - p)), l') /\ lhas l' = true /\ lpos (lz l') = q.
-Proof. exact html_template_token_proof. Qed.
-Print Assumptions html_template_atomic.
-
-(* C09 — templates, text (converse): an ordinary Text token contains no opening delimiter and reports none. *)
-Theorem html_template_text_clean :
-  forall c d l v l', cfg_ok c -> tb c <> [] -> html_inv d l -> intag l = false -> rawtag l = 0 ->
-    next c l = Ok (TextT, Some v, l') -> ltext l' = Some v ->
-    lhas l' = false /\ forall p, so v <= p < so v + sn v -> prefixb (tb c) (skipz p d) = false.
-Proof. exact html_text_no_template_proof. Qed.
-Print Assumptions html_template_text_clean.
-
-(* C09 — templates, attribute names (partial): a region [p,q) that follows a tag name or an attribute after
-   whitespace [cursor,a) and name bytes [a,p) at which no opening delimiter starts (name_plain: not whitespace,
-   '=', '>', "/>"; a = p: the region is the first thing of the attribute) lies inside ONE Attribute token that
-   starts at the cursor, HasTemplate() = true. *)
-Theorem html_template_atomic_attr_partial :
-  forall c d l a p q, cfg_ok c -> tb_plain c -> html_inv d l -> intag l = true ->
-    lstart (lz l) = lpos (lz l) -> lpos (lz l) <= a <= p ->
-    (forall i, lpos (lz l) <= i < a -> is_ws (getz d i) = true) ->
-    (forall i, a <= i < p -> name_plain c d i) ->
-    is_region c d p q ->
-    exists v l', next c l = Ok (AttributeT, Some v, l') /\ lhas l' = true /\ so v = lpos (lz l) /\ q <= so v + sn v.
-Proof. exact html_template_attr_name_proof. Qed.
-Print Assumptions html_template_atomic_attr_partial.
-
-(* C09 — templates, attribute values (partial): after whitespace, a non-empty name [a,b) without delimiter start,
-   whitespace, '=' at e and whitespace, a region [p,q) that is the whole start of the value (p = v) or lies inside a
-   single- or double-quoted value after bytes [v+1,p) that are neither the quote nor a delimiter start, lies inside
-   the ONE Attribute token, HasTemplate() = true.
-   NOT proved for attributes (correspondence + oracle only): a second or later region of the same attribute.
-   Exact exception (known finding c09-template:attrval-unquoted-mid): a region that starts in the middle of an
-   UNQUOTED value is not recognised. *)
-Theorem html_template_atomic_attr_value_partial :
-  forall c d l a b e v p q, cfg_ok c -> tb_plain c -> html_inv d l -> intag l = true ->
-    lstart (lz l) = lpos (lz l) -> lpos (lz l) <= a -> a < b -> b <= e -> e < v -> v <= p ->
-    (forall i, lpos (lz l) <= i < a -> is_ws (getz d i) = true) ->
-    (forall i, a <= i < b -> name_plain c d i) ->
-    prefixb (tb c) (skipz b d) = false ->
-    (forall i, b <= i < e -> is_ws (getz d i) = true) -> getz d e = 61 ->
-    (forall i, e < i < v -> is_ws (getz d i) = true) ->
-    (v = p \/ (prefixb (tb c) (skipz v d) = false /\ (getz d v = 34 \/ getz d v = 39) /\
-               forall i, v < i < p -> value_plain c d (getz d v) i)) ->
-    is_region c d p q ->
-    exists tk l', next c l = Ok (AttributeT, Some tk, l') /\ lhas l' = true /\ so tk = lpos (lz l) /\ q <= so tk + sn tk.
-Proof. exact html_template_attr_value_proof. Qed.
-Print Assumptions html_template_atomic_attr_value_partial.
-
-(* C09 — templates, attributes (converse, full): an Attribute token reports HasTemplate() = true only if a delimited
-   region [p,q) lies inside it (between the cursor before the call and the cursor after it). *)
-Theorem html_template_attr_converse :
-  forall c d l v l', cfg_ok c -> tb c <> [] -> html_inv d l -> intag l = true ->
-    next c l = Ok (AttributeT, Some v, l') -> lhas l' = true ->
-    exists p q, lpos (lz l) <= p /\ q <= lpos (lz l') /\ is_region c d p q.
-Proof. exact html_template_attr_converse_proof. Qed.
-Print Assumptions html_template_attr_converse.
-
-(* C09 — templates, raw text (partial): with a delimiter that does not start with '<', a region [p,q) in the content
-   of a raw-text element lies inside the Text token, HasTemplate() = true, whenever p is reached from the start of
-   the content (raw_reach) over: whole regions; bytes the scanner steps over one at a time (raw_plain: a byte other
-   than '<' at which no opening delimiter starts, or a '<' not followed by '/' and, in a script, not by "!--"); a "</"
-   + letters that is not the element's end tag (end_tag_here_b = false; the scanner jumps over the letters); a whole
-   "<!--" ... "-->" section of a script (Script.esc_end says it is left by "-->").
-   Exact exceptions: (1) delimiters are not looked for INSIDE a "<!--" section of a script (known finding
-   c09-template:script-comment), so a region that starts there is not reported; (2) an opening delimiter that starts
-   inside the letters after a "</" is jumped over; (3) for delimiters that start with '<' the clause is false (known
-   finding c09-template:rawtext-lt). *)
-Theorem html_template_atomic_rawtext_partial :
-  forall c d l p q, cfg_ok c -> html_inv d l -> intag l = false ->
-    rawtag l <> 0 -> rawtag l <> html_hash_Plaintext -> (exists x t, tb c = x :: t /\ x <> 60) ->
-    raw_reach c (rawtag l) d (lpos (lz l)) p -> is_region c d p q ->
-    exists v l', next c l = Ok (TextT, Some v, l') /\ lhas l' = true /\ so v = lpos (lz l) /\ q <= so v + sn v.
-Proof. exact html_template_rawtext_reach_proof. Qed.
-Print Assumptions html_template_atomic_rawtext_partial.
-
-(* C09 — templates, raw text (converse, full): when the content of a raw-text element is not empty (the cursor is
-   neither at the end of input nor at an end tag of the element) and the call reports HasTemplate() = true, a
-   delimited region [p,q) lies inside the returned Text token (which ends at the new cursor). *)
-Theorem html_template_rawtext_converse :
-  forall c d l ty tk l', cfg_ok c -> tb c <> [] -> html_inv d l -> intag l = false -> rawtag l <> 0 ->
-    lpos (lz l) < len d -> ~ end_tag_at (rawtag l) (d ++ [0]) (lpos (lz l)) ->
-    next c l = Ok (ty, tk, l') -> lhas l' = true ->
-    exists p q, lpos (lz l) <= p /\ q <= lpos (lz l') /\ is_region c d p q.
-Proof. exact html_template_rawtext_converse_proof. Qed.
-Print Assumptions html_template_rawtext_converse.
-
-(* C09 — well-formed documents (partial): for every document assembled from the constructs of the grammar
-   WfDoc.item (text without '<'; comments; CDATA; doctype in any ASCII case; start tags of ordinary elements with
-   valueless / unquoted / single- / double-quoted attributes and any permitted whitespace, closed by '>' or '/>';
-   end tags with any HTML whitespace before '>'; the raw-text elements style, title, textarea, xmp, iframe, script in any ASCII case with
-   attributes, non-empty content that contains no "</" (script: also no "<!--", or content with "<!--" sections for
-   which the double-escape rules designate the element's end tag: WfDoc.script_content), and their end tag; plaintext with
-   everything after its tag (last item); bogus comments "<?…>", "<!…>" (not starting with "--", "[CDATA[" or "doctype" in any ASCII case)
-   and "</" + non-letter "…>"; svg / math / xml subtrees whose inside is accepted by Wf.xml_wf: read as tags and
-   character data, quotes count only inside tags (attribute values may contain '>', "</svg>" and the other quote),
-   character data may contain quotes, nested tags and end tags of other elements; comments "<!--…-->", CDATA
-   sections "<![CDATA[…]]>" and processing instructions "<?…?>" are skipped whatever they contain (quotes, '<',
-   the element's own end tag; after fix f26ca9a); no NUL, and no end tag of the element itself in character data)
-   the lexer, without template delimiters, returns exactly one token per construct
-   (one per tag part; raw content as ONE Text token; an svg/math subtree as ONE SVG/Math token), with the right
-   type, the bytes of the construct, lower-cased Text()/AttrKey() and verbatim AttrVal(), followed by the
-   end-of-input report.  [observe] reads type, token bytes, Text() and (for attributes) AttrVal() after each call.
-   Constructs cut by the end of input (only as the last item; WfDoc.ITextLt and the ICut items): text ending with "<" or "</"
-   (the '<' belongs to the text); "<!--" body, "<![CDATA[" body, "<!doctype" after: one Comment / Text / Doctype token
-   to the end; "<?" / "<!" / "</"+non-letter body: one bogus Comment; "</" name ws: one EndTag; "<" name attributes:
-   StartTag and the Attribute tokens; a raw-text element (script with its double-escape rules) whose content has no
-   end tag (Script.raw_len = length): the tag tokens and ONE Text to the end.  In each case the end-of-input report follows.
-   NOT covered by this theorem (correspondence + Go oracle only): cuts inside an svg / math / xml element, inside a
-   quoted attribute value and inside the whitespace at the end of a tag; raw content that is empty (html_rawtext_end_exact
-   says where raw content ends in general); text containing a '<' that opens nothing (other than at the end of input);
-   names containing '/'; templates. *)
-Theorem html_wellformed_tokens_partial :
-  forall items, wf_doc items ->
-    exists tr, run no_tmpl (length (doc_obs items) + 1) (new_lexer (doc_bytes items)) = Ok tr /\
-               map observe tr = doc_obs items ++ [mkObs ErrorT [] [] []].
-Proof. exact html_wellformed_tokens_proof. Qed.
-Print Assumptions html_wellformed_tokens_partial.
-
 
 (* C02 / C09 — end tags are faithful (full clause, after fixes 980d021 and 7de66fe): for every end-tag token before
    the first error, with nr = the length of its name (the bytes after "</" up to the first whitespace, '>' or '/'),
